@@ -25,9 +25,9 @@ ENTRY = dict(
                 "every enabled goroutine is eventually scheduled; on the implementation it is a deadline on every call."),
     technique="Lean 4 proof (inductive invariants over all schedules of a channel-level model) + actor differential with model replay + grammar on engine histories",
     lean_modules=["Bpmn.Props.C09", "Bpmn.Props.C09Current"],
-    families=["c09", "c09g", "c09c"],
+    families=["c09", "c09g", "c09c", "c09x"],
     exhaustive=False,
-    rule=("c09: seeded plans of 1..8 sender goroutines (1..40 numbered traces each, thorough 1..120), 1..4 subscriber slots "
+    rule=("c09x: the shutdown phase — 1..3 REGISTERED senders keep sending after the tracer's context is cancelled at a seeded position, 2..3 subscribers (one fast, the others with buffers 0..2 and pacing consumers) stay until their channels are closed: each holds every trace, all in one order, sender order kept; c09: seeded plans of 1..8 sender goroutines (1..40 numbered traces each, thorough 1..120), 1..4 subscriber slots "
           "with 1..3 subscription episodes each (fresh channel, capacity in {0,1,2,3,5,10,64}, consumer pace 0..3, join at a "
           "generated position of the stream, concurrently with the senders or with the senders paused, leave after a "
           "generated number of traces or stay to the end) against the real tracer, plus a permanent witness subscriber "
